@@ -74,6 +74,7 @@ Record caseOp := { o_fixed : bool; o_adjguard : bool; o_m : pmode; o_c : Q;
                    o_dom : list (Q * Q * Z * (bool * bool));        (* min, max, n, nodes_on_bdry *)
                    o_nnew : list Z; o_off : list (option Z); o_flags : list (bool * bool);
                    o_rmin : list Q; o_rmax : list Q; o_rcs : list Q; o_offset : list Z;
+                   o_islinear : bool; o_axes : list nat;
                    o_x : list Q; o_fx : impl_out; o_y : list Q; o_ay : impl_out; o_inv : impl_out }.
 
 Definition mk_axis (d : Q * Q * Z * (bool * bool)) : @axis Q :=
@@ -111,6 +112,9 @@ Definition checkOp (k : caseOp) : bool :=
   && Qsclose optol 0 (o_rmax k) (map a_max axes)
   && Qsclose optol 0 (o_rcs k) (map cell_side axes)
   && Zeqs (o_offset k) offs
+  && beq (o_islinear k) linear
+  && all2 Nat.eqb (o_axes k)
+       (filter (fun i => negb (Nat.eqb (nth i ish 0%nat) (nth i osh 0%nat))) (seq 0 (length ish)))
   && out_eq (resizeN (o_m k) Forward (o_c k) true ish (o_x k) osh offs) (o_fx k)
   && ((* [o_adjguard]: this operator's .adjoint is refused because a space is not uniformly
          weighted -- only in the variant of the code with the proposed fix for finding
